@@ -133,6 +133,13 @@ func c08Script(steps int) {
 		return
 	}
 	// across the switch: nothing lost, duplicated or reordered outbound ...
+	handed := 0
+	for _, p := range append(main0.flat(), cand.flat()...) {
+		if p.Type == packet.MESSAGE {
+			handed++
+		}
+	}
+	verif.Assert(handed == 2, "packets buffered during the upgrade are handed to the new transport by the switch itself, not by a later send")
 	cand.complete()
 	m3 := w.send(3, false)
 	cand.complete()
